@@ -11,7 +11,8 @@ CONSTANTS
   BugLaterExpiry = FALSE
   BugDeletePending = FALSE
   BugHitExpired = TRUE
-INVARIANTS TypeOK ValueHasRegistration ClosedIsEmpty
-PROPERTIES ExpiryIsMin NoHitAtOrAfterExpiry ValueStable PendingNeverEvicted WaitersGetFlightOutcome
+  BugNoRecheck = FALSE
+INVARIANTS TypeOK ValueHasRegistration ClosedIsEmpty NoFlightOverFreshValue
+PROPERTIES ExpiryIsMin NoHitAtOrAfterExpiry ValueStable PendingNeverEvicted WaitersGetFlightOutcome DeleteLeavesNoHit
 VIEW view
 CHECK_DEADLOCK FALSE
